@@ -9,7 +9,7 @@ PROPS = ["KrillModel.Props.C05"]
 RELEVANT = {
     "roa_delta_iff", "roa_delta_errors_exact", "roa_delta_all_or_nothing", "held_same_family",
     "aspa_update_iff", "aspa_events_match_result", "aspa_existing_iff", "bgpsec_update_iff",
-    "child_add_iff", "child_update_iff", "child_id_iff", "child_update_refuses_empty",
+    "child_add_iff", "child_update_iff", "child_id_iff",
     "unparsable-aspa-state", "no_panic",
 }
 RULE = ("stream pure, set c05: every line is one independent case - a ROA delta (0-5 additions, 0-3 removals, implicit/explicit "
@@ -19,15 +19,31 @@ RULE = ("stream pure, set c05: every line is one independent case - a ROA delta 
         "id update - run on the real Routes::process_updates, AspaDefinitions::process_updates, CertAuth::updated_allowed_and_needed, "
         "BgpSecDefinitions::process_updates, CertAuth::process_child_* (cfg-gated wrappers), events applied to a real CertAuth; "
         "thorough adds the complete 3-prefix x 2-ASN x 3-max-length universe (states <= 1 entry, <= 2 additions, <= 1 removal). "
+        "plus stream system judged by driver sysreq: every single API request answered with an error has stored no successful command. "
         "distinct_nontrivial = distinct (op, model branch) pairs")
+
+
+def sysreq_sig(case, idx, verdict):
+    """`FAIL oracle refused_leaves_untouched <op> applied=[…]` -> `sysreq:refused_leaves_untouched:<op>`."""
+    w = verdict.split()
+    if verdict.startswith("FAIL oracle") and len(w) > 2:
+        op = w[3] if len(w) > 3 and "=" not in w[3] else vlib.strip_obs(case["ops"][idx][0]).split()[0]
+        return f"sysreq:{w[2]}:{op}"
+    return "sysreq:" + (w[1] if len(w) > 1 else "?")
 
 
 def check(ctx):
     vlib.prove(ctx, PROPS)
     found = False
-    if vlib.build_harness(ctx, ["pure"]):
+    if vlib.build_harness(ctx, ["pure", "system"]):
         n = 30000 if ctx.tier == "quick" else 400000
         found = run_pure(ctx, "c05", n, RELEVANT)
+        # request-level all-or-nothing on the real CaManager (system stream, driver `sysreq`)
+        before = len(ctx.violations)
+        traces = vlib.corpus_traces(ctx, "system", corpus="system-c05", extra_args=["rp=0"]) + \
+            vlib.parallel_traces(ctx, "system", 12 if ctx.tier == "quick" else 200, 15, extra_args=["rp=0"])
+        vlib.judge_traces(ctx, "system", "sysreq", traces, sysreq_sig, extra_args=["rp=0"])
+        found = found or len(ctx.violations) > before
     else:
         ctx.failed_obligations.append("harness-build")
     vlib.obligations_broken(ctx, found)
@@ -37,14 +53,26 @@ def check(ctx):
         "Routes/AspaDefinitions/BgpSecDefinitions are HashMaps; the model is an association list with map semantics; both sides are "
         "compared after sorting",
         "a CSR is a token with two observed attributes (key identifier, signature verifies); the clock ticks between two Time::now() calls",
-        "the manager-level ca_child_update (one request = several commands, F-C05-1) is proved about the model only; its replay on the "
-        "real CaManager needs a running CA and is left to the system stream",
+        "the request-level statement (a refused API request has stored no successful command) is judged on the real CaManager by the "
+        "system stream (driver sysreq) on corpus and generated scenarios; the multi-field child update violates it (F-C05-1, open)",
         "that a command without events leaves the store untouched apart from its audit record is C07's theorem",
     ]
     return vlib.finish(ctx, "proof", RULE)
 
 
 def replay(ctx, data):
+    if data.get("harness") == "system":
+        vlib.build_harness(ctx, ["system"])
+        vlib.prove(ctx, PROPS)
+        c = vlib.exec_ops(ctx, "system", "sysreq", data.get("case", "replay"), data["ops"], "replay", ["rp=0"])
+        for t, v in c["ops"]:
+            print(f"{t[:300]}  ## {v}")
+        if c.get("crash") or vlib.first_failure(c):
+            print(f"VIOLATION property={ctx.pid} replay={ctx.work}/replay.ops")
+            return 1
+        print("replay: no failure")
+        ctx.cleanup()
+        return 0
     return pure_replay(ctx, data, PROPS)
 
 
@@ -56,13 +84,17 @@ MANIFEST = {
             "exactly the list of bad entries per class and in order, an accepted delta's events produce (r \\ removed) U added with the "
             "last comment of each addition, a refused one produces no event; the analogous iff-characterisations for ASPA updates, "
             "ASPA provider updates, router keys, child add and child resource update, for every state and every request (induction over "
-            "the delta, no bound); negative witnesses (decide) for the four places where the code departs from the property; the models "
+            "the delta, no bound); an accepted ASPA update leaves exactly the definitions the objects were issued from; krill's 'held' test is "
+            "holding a block of the prefix' own family; labelled counter-models of what the pinned tree did before the fixes f600a28f and "
+            "abeec4b3; the request-level statement (a refused API request leaves nothing applied) is proved false of the model for the "
+            "multi-field child update and tied to the real CaManager through the system stream (driver sysreq); the models "
             "are tied to the code by differential execution on seeded and, in the thorough tier, exhaustive small-scope inputs and by "
             "evaluating the theorem predicates on the implementation's own results",
     "note": "Kernel-checked theorems are about the model; the tie is differential execution (tens of thousands of cases per run, complete "
-            "small universe in the thorough tier). 'Held' is a parameter of the theorems; krill's test (rpki-rs contains_roa_address) is "
-            "modelled as written, including its blindness to the address family (finding F-C05-2). The request-level non-atomicity of "
-            "ca_child_update (F-C05-1) is proved of the model and left to the system stream for replay. Repository content is not "
+            "small universe in the thorough tier). 'Held' is a parameter of the iff-theorems; krill's test (RoaPayload::is_held_by since "
+            "fix f600a28f) is modelled as written. F-C05-2 (family-blind held test) and F-C05-3 (ASPA events vs issued objects) were "
+            "found here and are fixed; F-C05-1 (ca_child_update runs one request as several commands) is open, replayed on the real "
+            "CaManager by the system stream. An entitlement update to the empty set is accepted by design (C02). Repository content is not "
             "touched by this stream (no signer): 'leaves the repository untouched' rests on 'no event' plus C07/C01.",
     "technique": "Lean 4 proof (induction over deltas, iff-characterisations) + correspondence check (seeded + exhaustive small scope)",
 }
